@@ -86,6 +86,11 @@ static void body(void) {
         st[2] = (step_t){ n + (size_t)(workers - 1) * g_jobsize, 1u << 20, ZSTD_e_end, 0 }; n += (size_t)(workers - 1) * g_jobsize; nsteps = 3; } break;
     case 8: workers = 1 + vx_choose(2); rsync = 1; checksum = 1; n = g_jobsize * 2 + g_jobsize / 3; st[0] = (step_t){ n, 1u << 22, ZSTD_e_end, 0 }; nsteps = 1; break;
     case 9: workers = 3; workers2 = 1 + vx_choose(2); n = 3 * g_jobsize + 11; st[0] = (step_t){ n, 1u << 20, ZSTD_e_end, 0 }; nsteps = 1; break;
+    case 14: {   /* round input buffer re-use: overlap as large as the window (= one job), a half-size first job cut by a flush, then one job's worth of input
+                  * per call: after the buffer wraps, new input lands next to (and with a defect: on) the prefix an unfinished job still reads */
+        workers = 1 + vx_choose(2); overlap = 9; { int half = vx_choose(3); size_t h = half == 0 ? g_jobsize / 2 : half == 1 ? g_jobsize / 4 : g_jobsize - 1;
+        st[0] = (step_t){ h, 1u << 20, ZSTD_e_flush, 0 }; for (int k = 1; k <= 6; k++) st[k] = (step_t){ h + (size_t)k * g_jobsize, 1u << 20, ZSTD_e_continue, 0 };
+        n = h + 6 * g_jobsize + 100; st[7] = (step_t){ n, 1u << 20, ZSTD_e_end, 0 }; nsteps = 8; checksum = 1; } break; }
     case 13: {   /* parameters changed between jobs with NO explicit window: the window announced by job 0 must bound every later job.  Jobs of 1 MiB so
                   * that a repeat further back than the first level's window still lies inside one job; one default schedule per configuration. */
         static const int LV[][2] = {{1, 7}, {1, 3}, {3, 1}, {7, 1}, {1, 13}, {-1, 6}}; int pi = vx_choose(6); pairIdx = pi; workers = 1 + vx_choose(2); level = LV[pi][0]; explicitWlog = 0; jobsize = 1u << 20;
@@ -146,6 +151,7 @@ static void body(void) {
     int slot = (g_driver * 64 + overlap * 5 + dictMode * 16 + (abortAt >= 0 ? 0 : 0)) & 4095;
     if (g_driver == 6 || g_driver == 9 || g_driver == 10) slot = (g_driver * 64) & 4095;
     if (g_driver == 13) slot = (13 * 64 + pairIdx) & 4095;
+    if (g_driver == 14) slot = (14 * 64 + (int)(n % 61)) & 4095;
     if (g_driver == 12) slot = (12 * 64 + (int)(n % 61)) & 4095;                /* D12's input and call boundaries depend on its choices: one subject per (n) */   /* second frame is the same subject for every abort point / worker change */
     uint64_t prev = __sync_val_compare_and_swap(&g_first[slot], 0, h);
     if (prev != 0 && prev != h) { vx_fail("differential: driver %d: output differs between schedules / worker counts for the same input and parameters", g_driver); return; }
